@@ -1,6 +1,7 @@
 package rules
 
 import (
+	"strings"
 	"go/constant"
 	"go/token"
 	"go/types"
@@ -243,4 +244,87 @@ func c15Div(c *core.Ctx, cl map[*ssa.Function]*ssa.Function) {
 		c.Check("premise/TermDuration-constant", "who-may-write", n == 0, token.NoPos, "params.TermDuration is assigned by the package initialiser, or by the configuration with a value tested > 0 (%d other stores)", n)
 	})
 	_ = types.Typ
+}
+
+// c15OpenDecode: clause C15.10.
+func c15OpenDecode(c *core.Ctx) {
+	c.Clause("C15.10", "no open-ended decode of remote bytes: the rlp decoder builds nested []interface{} values for an interface{} target recursively, as deep as the input nests; every Stream.Decode (or rlp.Decode/DecodeBytes) whose target is a *interface{} is dominated by a test of the size Kind() reported that lets only the empty value through — a must-be-empty field is refused by its head, not decoded first and measured afterwards")
+	c.Run("open-decodes", func() {
+		stream := c.Named("common/rlp.Stream")
+		n := 0
+		seq := map[string]int{}
+		for _, fn := range c.SrcFuncs {
+			if isTestHelper(c, fn) || core.RelPkg(fn) == "common/rlp" {
+				continue
+			}
+			for _, ci := range core.AllCalls(fn) {
+				o := core.CalleeObj(ci)
+				if o == nil || o.Pkg() == nil || !strings.HasSuffix(o.Pkg().Path(), "/common/rlp") {
+					continue
+				}
+				if o.Name() != "Decode" && o.Name() != "DecodeBytes" {
+					continue
+				}
+				a := ci.Common().Args
+				if len(a) == 0 {
+					continue
+				}
+				t := a[len(a)-1]
+				if mi, ok := t.(*ssa.MakeInterface); ok {
+					t = mi.X
+				}
+				pt, ok := t.Type().Underlying().(*types.Pointer)
+				if !ok {
+					continue
+				}
+				it, ok := pt.Elem().Underlying().(*types.Interface)
+				if !ok || it.NumMethods() != 0 {
+					continue
+				}
+				n++
+				guarded := false
+				for _, b := range fn.Blocks {
+					ifi := ifOf(b)
+					if ifi == nil || !b.Dominates(ci.Block()) || b == ci.Block() {
+						continue
+					}
+					cmp, ok := ifi.Cond.(*ssa.BinOp)
+					if !ok {
+						continue
+					}
+					k, isK := cmp.Y.(*ssa.Const)
+					if !isK || k.Value == nil || k.Value.Kind() != constant.Int || constant.Sign(k.Value) != 0 {
+						continue
+					}
+					fromKind := false
+					for w := range core.Slice(cmp.X) {
+						if kc, ok := w.(ssa.CallInstruction); ok {
+							if ko := core.CalleeObj(kc); ko != nil && ko.Name() == "Kind" {
+								if rn := recvNamed(ko); rn != nil && types.Identical(rn.Type(), stream) {
+									fromKind = true
+								}
+							}
+						}
+					}
+					if !fromKind {
+						continue
+					}
+					nonEmptyEdge := -1
+					switch cmp.Op {
+					case token.GTR, token.NEQ:
+						nonEmptyEdge = 0
+					case token.LEQ, token.EQL:
+						nonEmptyEdge = 1
+					}
+					if nonEmptyEdge >= 0 && !core.CanReach(b.Succs[nonEmptyEdge], ci.Block(), b) && b.Succs[nonEmptyEdge] != ci.Block() {
+						guarded = true
+					}
+				}
+				name := shortFn(fn)
+				seq[name]++
+				c.Check("open-decode@"+name+seqSuffix(seq[name]), "guarded-action", guarded, ci.Pos(), "%s decodes into an interface{}: the call must be dominated by a Kind() size test that admits the empty value only", name)
+			}
+		}
+		c.Floor("open-decodes", n, 2)
+	})
 }
